@@ -94,6 +94,21 @@ SEff(m, x, a) ==
   THEN Eff(m, ToList(a))
   ELSE KillAll(m, Dying(x, a))
 
+(* DYING-TIME VIEW.  "calling a signal invokes exactly the callbacks whose connection object is
+   still alive ... and runs a connection's unregister callback exactly once when that connection
+   dies": a connection that is being destroyed is not alive, and its unregister callback runs WHEN
+   it dies - so what that callback sees of the signals is the state in which the dying connection
+   is a member of no signal any more (and nothing else has changed).  signal.doxygen, section
+   "Disconnect callbacks" ("when the last connection to a named signal dies, the signal should die
+   with it") and examples/signal/unregister.cpp rely on exactly this: the unregister callback asks
+   the signal whether it is empty().
+   When several connections die in one operation (a container of connections) the order of the
+   deaths is not specified, so only operations in which exactly one connection dies are judged. *)
+JudgeDying(x, a) == Len(Dying(x, a)) = 1
+DyingState(m, x, a) ==
+  IF SigBug = "dying_still_member" THEN [m EXCEPT !.elive[Dying(x, a)[1]] = FALSE]
+  ELSE KillAll(m, Dying(x, a))
+
 (* the unregister callbacks an operation runs (unr: unregister flavour) *)
 UnregLog(x, a, unr) ==
   IF unr THEN (IF SigBug = "unreg_twice" THEN Dying(x, a) \o Dying(x, a) ELSE Dying(x, a)) ELSE <<>>
@@ -169,6 +184,21 @@ UnregReasons(x, a, unr, got) ==
      ELSE IF \E e \in es : Count(got, e) < Count(want, e) THEN {"unregister-not-run"}
      ELSE IF Range(got) = Range(want) THEN {"unregister-run-twice"}
      ELSE {"unregister-of-other-connection"}
+
+(* What the unregister callback of the (one) dying connection saw: views = one record per run of
+   an unregister callback, [c |-> connection, sigs |-> what every signal slot showed (as in the
+   observation after an operation)].  Reasons carry the prefix "dying-". *)
+DyingReasons(m, x, a, unr, res, views) ==
+  IF ~unr \/ ~JudgeDying(x, a) THEN {}
+  ELSE LET c == Dying(x, a)[1]
+           v == DyingState(m, x, a)
+       IN UNION {
+            UNION {
+              LET r == views[i].sigs[L] IN
+                (IF r.empty = IsEmpty(v, L) THEN {} ELSE {"dying-empty"})
+                \cup (IF r.call.done THEN {"dying-" \o w : w \in CallReasons(v, L, r.call, res)} ELSE {})
+              : L \in {K \in Lists : v.llive[K]}}
+            : i \in {j \in DOMAIN views : views[j].c = c}}
 
 -----------------------------------------------------------------------------
 (* Model: all histories over small constants (unregister flavour, result type int), with
@@ -246,6 +276,22 @@ LawCallExplained ==
           rs == [i \in 1..Len(c.cbs) |-> c.cbs[i].r]
       IN /\ CallReasons(st, L, c, TRUE) = {}
          /\ c.ret = Pow2(Len(rs)) * 1 + WeightedSum(rs)
+(* while a connection dies it is a member of no signal, is not called by any, and everything
+   else is as before; the model's own call in that state is accepted by the judge of the view *)
+LawDyingView ==
+  \A a \in {b \in SigAllOps : SPre(st, sx, b) /\ JudgeDying(sx, b)} :
+    LET c == Dying(sx, a)[1]
+        v == DyingState(st, sx, a)
+        view(w) == [c |-> c, sigs |-> [L \in Lists |->
+                      [live |-> w.llive[L], empty |-> IsEmpty(w, L),
+                       call |-> ModelCall(w, L, 1, 0) @@ [done |-> CallPre(w, sx, L, TRUE)]]]]
+    IN /\ st.elive[c] /\ ~v.elive[c]
+       /\ v.llive = st.llive
+       /\ \A L \in Lists : v.member[L] = Without(st.member[L], c)
+       /\ DyingReasons(st, sx, a, TRUE, TRUE, <<view(KillAll(st, <<c>>))>>) = {}
+       \* the judge of the view can tell: the view BEFORE the death is rejected when c was a member
+       \* of a callable signal
+       /\ (ListOf(st, c) # 0 /\ CallPre(st, sx, ListOf(st, c), TRUE) => DyingReasons(st, sx, a, TRUE, TRUE, <<view(st)>>) # {})
 (* ACTION_CONSTRAINT of the script-emission config that generates only histories of the
    operations the statement of C11 names (no moves of owners, no containers) *)
 InScopeStep == hist' = hist \/ hist'[Len(hist')].op \in {"sig_ctor", "sig_move_ctor", "sig_move_assign", "sig_dtor", "connect", "disconnect"}
